@@ -290,6 +290,21 @@ func (op c11Op) apply(x, y gts.Sequence) interface{} {
 		return gts.WithTopology(x, gts.Linear)
 	case "repair":
 		return gts.FeatureSlice(gts.Repair(x.Features()))
+	case "cutrepair":
+		// Repair on a table that really holds fragments: x cut at op.I and concatenated again. Neither the concatenation
+		// nor the pieces it was made of (they may share location storage with it) may read differently afterwards.
+		a, b := gts.Slice(x, 0, op.I), gts.Slice(x, op.I, gts.Len(x))
+		cat := gts.Concat(a, b)
+		before := resultDump(cat) + "|" + resultDump(a) + "|" + resultDump(b)
+		rep := gts.Repair(cat.Features())
+		again := gts.Repair(cat.Features())
+		if after := resultDump(cat) + "|" + resultDump(a) + "|" + resultDump(b); after != before {
+			return "ARGUMENT-MODIFIED by Repair: was " + firstDiffContext(before, after) + " now " + firstDiffContext(after, before)
+		}
+		if resultDump(gts.FeatureSlice(rep)) != resultDump(gts.FeatureSlice(again)) {
+			return "ARGUMENT-MODIFIED by Repair: repairing the same table again gives " + resultDump(gts.FeatureSlice(again)) + " after " + resultDump(gts.FeatureSlice(rep))
+		}
+		return gts.FeatureSlice(rep)
 	case "filter":
 		f, err := gts.Selector(op.S)
 		if err != nil {
@@ -328,6 +343,9 @@ func c11Check(c c11Case) *Violation {
 		if pi != nil {
 			skipCase("op-panicked")
 			continue
+		}
+		if msg, ok := r1.(string); ok && strings.HasPrefix(msg, "ARGUMENT-MODIFIED") {
+			return viol("argument-modified", "op %d %s: %s", k, op, msg)
 		}
 		d1 := resultDump(r1)
 		pi2 := guard(func() { r2 = op.apply(x.seq, y.seq) })
@@ -381,7 +399,7 @@ var c11Prop = &Prop[c11Case]{ID: "C11", Check: c11Check, Classify: c11Classify, 
 func init() { registerReplay(c11Prop) }
 
 var c11OpNames = []string{"insert", "embed", "delete", "erase", "slice", "concat-xy", "concat-yx", "concat-xx", "reverse", "rotate",
-	"complement", "transcribe", "withinfo", "withfeatures", "withbytes", "withtopology", "repair", "filter", "finsert", "locate", "search"}
+	"complement", "transcribe", "withinfo", "withfeatures", "withbytes", "withtopology", "repair", "cutrepair", "cutrepair", "filter", "finsert", "locate", "search"}
 
 func c11GenOp(t *rapid.T, L int, name string) c11Op {
 	op := c11Op{Op: name}
@@ -400,6 +418,8 @@ func c11GenOp(t *rapid.T, L int, name string) c11Op {
 		op.S = rapid.SampledFrom([]string{"gene", "source", "/label=x", "/note", ""}).Draw(t, "sel")
 	case "finsert":
 		op.I = rapid.IntRange(0, L-1).Draw(t, "at")
+	case "cutrepair":
+		op.I = rapid.IntRange(0, L).Draw(t, "cut")
 	}
 	return op
 }
